@@ -102,6 +102,8 @@ impl<'tcx> JSFormatter<'tcx> {
             .trim()
             .replace('\n', "\n * ")
             .replace(" \n", "\n")
+            // the text ends up inside a `/** … */` block
+            .replace("*/", "* /")
     }
 
     /// Creates the body of an `import` or `export` statement.
